@@ -454,7 +454,7 @@ def run_op(M: Machine, step: int, op: dict) -> str | None:
             objs = [d for d, _ in src]
             cells = [c for _, c in src]
             arg = (x for x in objs) if via == "gen" else list(objs)
-        kw = {"copy": op["copy"]}
+        kw = {} if op["copy"] else {"copy": False}  # copy=True is exercised as the DEFAULT
         if via == "dtype" and objs:
             kw["dtype"] = objs[0]
         layouts = {_lay(o) for o in objs}
@@ -504,7 +504,7 @@ def run_op(M: Machine, step: int, op: dict) -> str | None:
             items = [_pick(M.drops, i) for i in op["ds"]]
         objs = [d for d, _ in items]
         before = [c for c in m.cells]
-        kw = {"copy": op["copy"]}
+        kw = {} if op["copy"] else {"copy": False}  # copy=True is exercised as the DEFAULT
         if op["force"]:
             kw["force_consistency"] = True
         # expected rejection under force_consistency (only asserted in unambiguous states)
